@@ -201,3 +201,164 @@ func c15Episode(c *Ctx, rng *lab.RNG, cs c15Case) {
 		r.Sample(2, map[string]any{"case": cs.Name, "events": len(a.Evs), "accepted_values": acc})
 	}
 }
+
+// ---------------------------------------------------------------- directed: waiters blocked on a full write buffer
+
+func init() { registry["C15D"] = runC15Directed }
+
+// runC15Directed: the applier is held (gate), the write buffer is filled completely, W goroutines call Wait and
+// are verifiably blocked on their marker send; then Clear or Close runs. Every one of those goroutines must be
+// released by the time the call returns (their Wait began before the Clear/Close and the cache never refuses a
+// marker), and every accepted value must have exited exactly once.
+func runC15Directed(c *Ctx) {
+	r := c.R
+	r.Rule = "directed: applier held, write buffer of size B in {1,2,4,16} filled until a Set is refused, W in {1,3,8} goroutines blocked in Wait on the full buffer (verified in the goroutine profile), then Clear or Close with tokens granted one at a time; distinct by (B, W, Clear/Close, items applied before the applier stopped)"
+	idx := 0
+	for rep := 0; rep < c.N(2, 12); rep++ {
+		for _, B := range []int{1, 2, 4, 16} {
+			for _, W := range []int{1, 3, 8} {
+				for _, closeIt := range []bool{false, true} {
+					idx++
+					if idx%c.NParts != c.Part {
+						continue
+					}
+					c15BlockedWaiters(c, B, W, closeIt, uint64(idx))
+				}
+			}
+		}
+	}
+}
+
+func countBlockedWaiters() int {
+	buf := make([]byte, 4<<20)
+	n := runtime.Stack(buf, true)
+	cnt := 0
+	for _, g := range strings.Split(string(buf[:n]), "\n\n") {
+		if strings.Contains(g, "[chan send") && strings.Contains(g, ").Wait(") {
+			cnt++
+		}
+	}
+	return cnt
+}
+
+func c15BlockedWaiters(c *Ctx, B, W int, closeIt bool, stream uint64) {
+	r := c.R
+	r.Eval(1)
+	name := fmt.Sprintf("c15d-buf%d-waiters%d-close%v", B, W, closeIt)
+	c.J.Case(name)
+	l, err := lab.NewLab(lab.CacheCfg{NumCounters: 1000, MaxCost: 1 << 20, BufferItems: 64, IgnoreInternalCost: true, KeyKind: "uint64", NKeys: B + 8, SetBuf: B})
+	if err != nil {
+		r.Inconc(1)
+		return
+	}
+	defer l.Forget()
+	fail := func(sig, d string) { r.Violate("C15/"+sig, fmt.Sprintf("[%s] %s", name, d), name) }
+	g := lab.NewGate(l)
+	cl := l.NewClient()
+	// fill: one item in the applier's hand, B in the channel, then a refused one
+	accepted := 0
+	for k := 0; k < B+8; k++ {
+		if cl.Set(k, cl.NextVal(k), 1, 0) {
+			accepted++
+			if accepted == 1 {
+				if err := g.AwaitHeld(); err != nil {
+					r.Inconc(1)
+					g.Open()
+					l.C.Close()
+					return
+				}
+			}
+		} else {
+			break
+		}
+	}
+	if accepted != B+1 {
+		r.Inconc(1)
+		r.Note("%s: expected %d accepted Sets before the buffer is full, got %d", name, B+1, accepted)
+		g.Open()
+		l.C.Close()
+		return
+	}
+	base := countBlockedWaiters()
+	var wg sync.WaitGroup
+	for i := 0; i < W; i++ {
+		wg.Add(1)
+		go func() { defer wg.Done(); l.C.Wait() }()
+	}
+	deadline := time.Now().Add(20 * time.Second)
+	for countBlockedWaiters()-base < W {
+		if time.Now().After(deadline) {
+			r.Inconc(1)
+			r.Note("%s: the waiters did not all reach the blocked send", name)
+			g.Open()
+			wg.Wait()
+			l.C.Close()
+			return
+		}
+		time.Sleep(time.Millisecond)
+	}
+	s0 := g.Stopped()
+	done := make(chan struct{})
+	go func() {
+		if closeIt {
+			cl.Close()
+		} else {
+			cl.Clear()
+		}
+		close(done)
+	}()
+	applied := 0
+	for {
+		if g.Held() {
+			if err := g.Step(); err != nil {
+				r.Inconc(1)
+				r.Note("%s: %v", name, err)
+				g.Open()
+				return
+			}
+			applied++
+		}
+		held, err := g.AwaitHeldOr(func(stopped, _ int) bool { return stopped > s0 })
+		if err != nil {
+			r.Inconc(1)
+			r.Note("%s: %v", name, err)
+			g.Open()
+			return
+		}
+		if held && g.Stopped() == s0 {
+			continue
+		}
+		break
+	}
+	g.Open()
+	what := "Clear"
+	if closeIt {
+		what = "Close"
+	}
+	select {
+	case <-done:
+	case <-time.After(60 * time.Second):
+		fail("call-stuck", what+" did not return within 60 s")
+		return
+	}
+	released := make(chan struct{})
+	go func() { wg.Wait(); close(released) }()
+	select {
+	case <-released:
+	case <-time.After(30 * time.Second):
+		fail("waiter-not-released", fmt.Sprintf("%d goroutines were blocked in Wait() on a full write buffer when %s was called; 30 s after %s returned %d of them are still blocked", W, what, what, countBlockedWaiters()-base))
+		return
+	}
+	if !closeIt {
+		cl.Wait()
+		cl.Close()
+	}
+	a := lab.Analyze(l.Merged())
+	a.CheckLifecycle(func(sig, detail string, w any) {
+		r.Violate("C15/lifecycle/"+sig, fmt.Sprintf("[%s] %s", name, detail), map[string]any{"witness": w})
+	})
+	r.Obs("blocked_waiter_cases", 1)
+	r.Obs("blocked_waiters_released", int64(W))
+	r.DistinctKey("%s/applied%d", name, min(applied, 4))
+	r.Sample(2, map[string]any{"case": name, "items_applied_before_stop": applied})
+}
